@@ -190,3 +190,129 @@ def natural_loops(fn):
             body.add(x)
             work.extend(preds[x])
     return loops
+
+
+# ---- inlining of local helper functions (used as a fallback when an encoder no longer finds the calls it is posed on) --------------
+
+_COMMON_NAMES = {"new", "len", "get", "put", "finalize", "default", "clone", "from", "into", "next", "push", "insert", "hash", "serialize", "deserialize", "drop",
+                 "flush", "write", "read", "open", "close", "path", "iter", "take", "map", "unwrap", "expect", "call", "poll", "deref", "eq", "ne", "cmp", "fmt"}
+
+
+def helper_index(fns):
+    """{last path segment: [Fn]} of the crate's plain (non-closure, non-coroutine) functions"""
+    idx = {}
+    for n, f in fns.items():
+        if "{closure" in n or "{constant" in n or "promoted[" in n:
+            continue
+        idx.setdefault(n.split("::")[-1], []).append(f)
+    return idx
+
+
+def resolve_helper(callee, idx, fns):
+    if callee is None or callee.startswith("<"):
+        return None
+    seg = re.sub(r"::<[^<>]*(<[^<>]*>[^<>]*)*>", "", callee).split("::")[-1]
+    if len(seg) < 8 or seg in _COMMON_NAMES or not re.match(r"[a-z_][a-z0-9_]*$", seg):
+        return None
+    c = idx.get(seg, [])
+    if len(c) != 1:
+        return None
+    h = c[0]
+    if (h.name + "::{closure#0}") in fns and "async fn body" in (h.ret or ""):
+        return None  # async helper: its body is a coroutine, not inlined
+    return h
+
+
+def _rename(text, lo, bo):
+    text = re.sub(r"(?<![\w'])_(\d+)\b", lambda m: "_%d" % (int(m.group(1)) + lo), text)
+    return re.sub(r"\bbb(\d+)\b", lambda m: "bb%d" % (int(m.group(1)) + bo), text)
+
+
+def inline_helpers(fn, fns, idx=None, depth=2, _stack=()):
+    """A copy of `fn` in which calls of local helper functions (uniquely named, synchronous) are replaced by the helper's body:
+    helper locals and blocks are renumbered, parameters become assignments, `return` becomes an assignment to the call's
+    destination and a jump to its return target.  Unwind edges and cleanup blocks of the helper are dropped."""
+    idx = idx or helper_index(fns)
+    new = Fn(fn.name, fn.header)
+    new.debug = {k: list(v) for k, v in fn.debug.items()}
+    new.locals = dict(fn.locals)
+    new.args = list(fn.args)
+    new.ret = fn.ret
+    new.blocks = {b: (list(v[0]), v[1], v[2]) for b, v in fn.blocks.items()}
+    new.order = list(fn.order)
+    nl = max([int(k[1:]) for k in new.locals] + [0]) + 1
+    nb = max([int(b[2:]) for b in new.order] + [0]) + 1
+    changed = False
+    for b in list(fn.order):
+        stmts, term, cleanup = new.blocks[b]
+        if cleanup:
+            continue
+        t = parse_term(term)
+        if t["kind"] != "call" or not t["target"]:
+            continue
+        h = resolve_helper(t["func"], idx, fns)
+        if h is None or h.name == fn.name or h.name in _stack or len(h.args) != len(t["args"]):
+            continue
+        # only small, loop-free helpers (the "a few lines extracted" kind): a helper with loops stays a call
+        if len([x for x in h.order if not h.blocks[x][2]]) > 40 or natural_loops(h):
+            continue
+        if depth > 1:
+            h = inline_helpers(h, fns, idx, depth - 1, _stack + (fn.name,))
+        lo, bo = nl, nb
+        nl += max([int(k[1:]) for k in h.locals] + [0]) + 1
+        nb += max([int(x[2:]) for x in h.order] + [0]) + 2
+        for k, ty in h.locals.items():
+            new.locals["_%d" % (int(k[1:]) + lo)] = ty
+        for name, places in h.debug.items():
+            new.debug.setdefault(name, [])
+            new.debug[name] += [_rename(p_, lo, bo) for p_ in places]
+        entry = "bb%d" % (nb - 1)
+        new.blocks[entry] = (["_%d = %s" % (int(p_[1:]) + lo, a_) for (p_, _), a_ in zip(h.args, t["args"])], "goto -> bb%d" % bo, False)
+        new.order.append(entry)
+        for hb in h.order:
+            hs, ht, hc = h.blocks[hb]
+            if hc:
+                continue
+            hs2 = [_rename(s_, lo, bo) for s_ in hs]
+            pt = parse_term(ht)
+            if pt["kind"] == "return":
+                hs2.append("%s = move _%d" % (t["dest"], lo))
+                ht2 = "goto -> %s" % t["target"]
+            else:
+                ht2 = _rename(ht, lo, bo)
+            nbn = "bb%d" % (int(hb[2:]) + bo)
+            new.blocks[nbn] = (hs2, ht2, False)
+            new.order.append(nbn)
+        new.blocks[b] = (stmts, "goto -> %s" % entry, False)
+        changed = True
+    return new if changed else fn
+
+
+def inlined_table(fns):
+    """function table in which every function has its local helper calls inlined (built lazily per lookup)"""
+    idx = helper_index(fns)
+
+    class T(dict):
+        def items(self_):
+            for n, f in fns.items():
+                yield n, self_[n]
+
+        def __missing__(self_, n):
+            self_[n] = inline_helpers(fns[n], fns, idx)
+            return self_[n]
+
+        def __iter__(self_):
+            return iter(fns)
+
+        def __len__(self_):
+            return len(fns)
+
+        def keys(self_):
+            return fns.keys()
+
+        def get(self_, n, d=None):
+            return self_[n] if n in fns else d
+
+        def __contains__(self_, n):
+            return n in fns
+    return T()
